@@ -607,7 +607,10 @@ class Subspace(IdealPoint):
         # a subspace through the origin is a flat in the Poincare model,
         # so its "center" is at infinity: use any vector orthogonal to
         # the subspace instead
-        at_infinity = ~np.isfinite(spacelike_guess).all(axis=-1)
+        # (up to roundoff: a center further away than 1 / ERROR_THRESHOLD
+        # points in a direction which is mostly noise)
+        at_infinity = ~(np.isfinite(spacelike_guess).all(axis=-1) &
+                        (np.abs(poincare_rad) < 1 / ERROR_THRESHOLD))
         if at_infinity.any():
             normals = utils.kernel(self.ideal_basis @ self.minkowski)[..., 0]
             spacelike_guess = np.where(at_infinity[..., np.newaxis],
